@@ -6,7 +6,7 @@ is outside the Coq models; these runs are the tie for that glue."""
 def parse(out):
     """`S=..;C0=..` -> {app: [(tag, k, seq, size, ok)]}"""
     logs = {}
-    for rec in out.split(";"):
+    for rec in out.split("|")[0].split(";"):
         name, items = rec.split("=")
         logs[name] = []
         if items == "-":
@@ -16,6 +16,56 @@ def parse(out):
             k, sq, size, okf = rest.split(".")
             logs[name].append((tag, int(k), int(sq), int(size), okf == "1"))
     return logs
+
+
+def extras(out):
+    """the part after `|`: {"N": (connected, authorized), "C0st": "connected", ...}"""
+    d = {}
+    if "|" in out:
+        for rec in out.split("|")[1].split(";"):
+            k, v = rec.split("=")
+            d[k] = tuple(int(x) for x in v.split("/")) if k == "N" else v
+    return d
+
+
+def gen_mismatch(rng):
+    """default protocol check over the real backend, ticks slower than frames (manual tick policy, 20 ms frames so that Bevy's
+    event buffers rotate every frame): client 0 has the server's protocol, client 1 registers one more event.  Client 1 must be
+    disconnected by the server's backend within a few frames of its hash arriving - tick or no tick -, is never authorized and is
+    never sent a dependent event; client 0 is authorized and gets every broadcast made after its authorization"""
+    steps = ["cfg:proto", "cfg:manual", "cfg:dt20", "C0new", "sl", "Su", "C0u", "sl", "Su", "T", "Su", "C0u"]
+    sent, seq = [], 0
+    for _ in range(rng.randrange(0, 3)):            # frames without a tick before the mismatching client shows up
+        steps += ["Su", "C0u"]
+    steps += ["C1newx", "sl", "Su", "C1u", "sl"]
+    for _ in range(rng.randrange(3, 7)):            # frames, mostly without ticks; broadcasts in some of them
+        if rng.random() < 0.5:
+            seq += 1
+            steps.append("b:0:%d" % rng.choice([0, 10, 200]))
+            sent.append((0, seq, None))
+        if rng.random() < 0.25:
+            steps.append("T")
+        steps += ["Su", "sl", "C0u", "C1u"]
+    steps += ["T", "Su", "sl", "C0u", "C1u", "Su", "sl", "C0u", "C1u"]
+    return steps, sent
+
+
+def judge_mismatch(out, sent):
+    if "=" not in out:
+        return "the example backend did not come up or panicked"
+    logs, ex = parse(out), extras(out)
+    if ex.get("N") != (1, 1):
+        return "after the exchange the server has %r connections / authorized clients, expected exactly the matching client (1, 1): the client with the differing protocol was not asked to disconnect (or was authorized)" % (ex.get("N"),)
+    if ex.get("C1st") != "disconnected":
+        return "the client with the differing protocol is still %s" % ex.get("C1st")
+    if ex.get("C0st") != "connected":
+        return "the matching client is %s" % ex.get("C0st")
+    if [x for x in logs.get("C1", []) if x[0] == "D"]:
+        return "the client with the differing protocol was sent a dependent event"
+    have = sorted(x[2] for x in logs.get("C0", []) if x[0] == "D")
+    if have != sorted(sq for (_, sq, _) in sent):
+        return "the authorized client got broadcasts %r, sent %r" % (have, sorted(sq for (_, sq, _) in sent))
+    return None
 
 
 def gen_late(rng):
